@@ -244,6 +244,27 @@ func checkC19(c *Ctx) {
 				}
 				if !reflect.DeepEqual(got, want) && (len(got) > 0 || len(want) > 0) {
 					fail("listing", "lists devices (with Spec files) %v, the library: %v", got, want)
+					break
+				}
+				// the printed definitions: each block after a heading, parsed, equals the library's device
+				format := "json"
+				if strings.HasSuffix(sc.name, "yaml") {
+					format = "yaml"
+				}
+				blocks := splitBlocks(res.out, reVerboseDv)
+				for i, q := range ref.ListDevices() {
+					if i >= len(blocks) {
+						break
+					}
+					body := blocks[i]
+					if j := strings.Index(body, "global Spec containerEdits:"); j >= 0 {
+						body = body[:j]
+					}
+					if ok, diff := sameTree(deindent(body, 4), ref.GetDevice(q).Device, format); !ok {
+						fail("listing-detail", "the printed definition of %s differs from the library's: %s", q, diff)
+						break
+					}
+					c.Count("verbose_definitions_compared", 1)
 				}
 			case "vendors":
 				var got, want []string
@@ -285,6 +306,31 @@ func checkC19(c *Ctx) {
 				// (a vendor argument only selects whether anything is listed: the tool lists all vendors' Specs)
 				if !reflect.DeepEqual(sortedCopy(got), sortedCopy(want)) && (len(got) > 0 || len(want) > 0) {
 					fail("listing", "lists Spec files %v, the library: %v", sortedCopy(got), sortedCopy(want))
+					break
+				}
+				if sc.name == "specs -v" {
+					format := sc.args[len(sc.args)-1]
+					blocks := splitBlocks(res.out, reSpecFile)
+					byPath := map[string]*cdi.Spec{}
+					for _, v := range vendors {
+						for _, sp := range ref.GetVendorSpecs(v) {
+							byPath[sp.GetPath()] = sp
+						}
+					}
+					for i, path := range got {
+						if i >= len(blocks) || byPath[path] == nil {
+							break
+						}
+						body := blocks[i]
+						if j := strings.Index(body, "\nVendor "); j >= 0 {
+							body = body[:j+1]
+						}
+						if ok, diff := sameTree(deindent(body, 4), byPath[path].Spec, format); !ok {
+							fail("listing-detail", "the printed Spec %s differs from the library's: %s", path, diff)
+							break
+						}
+						c.Count("verbose_definitions_compared", 1)
+					}
 				}
 			case "dirs":
 				var got, want []string
@@ -498,4 +544,46 @@ func checkC19(c *Ctx) {
 	c.Floor("invocations_without_cache_errors", 20)
 	c.Floor("validate_accepting", 5)
 	c.Floor("validate_rejecting", 5)
+}
+
+// splitBlocks returns the text following each heading line (matched by re) up to the next heading.
+func splitBlocks(out string, re *regexp.Regexp) []string {
+	idx := re.FindAllStringIndex(out, -1)
+	var blocks []string
+	for i, m := range idx {
+		end := len(out)
+		if i+1 < len(idx) {
+			end = idx[i+1][0]
+		}
+		start := m[1]
+		if start < len(out) && out[start] == '\n' {
+			start++
+		}
+		blocks = append(blocks, out[start:end])
+	}
+	return blocks
+}
+
+// sameTree parses text in the given format and compares it with obj marshalled the way the tool does.
+func sameTree(text string, obj any, format string) (bool, string) {
+	var got, want any
+	if format == "json" {
+		if err := json.Unmarshal([]byte(text), &got); err != nil {
+			return false, "output does not parse as JSON: " + err.Error() + ": " + clip(text, 300)
+		}
+		wb, _ := json.Marshal(obj)
+		json.Unmarshal(wb, &want)
+	} else {
+		if err := yamlv3.Unmarshal([]byte(text), &got); err != nil {
+			return false, "output does not parse as YAML: " + err.Error() + ": " + clip(text, 300)
+		}
+		wb, _ := yamlv3.Marshal(obj)
+		yamlv3.Unmarshal(wb, &want)
+	}
+	if !reflect.DeepEqual(normTree(got), normTree(want)) {
+		gj, _ := json.Marshal(normTree(got))
+		wj, _ := json.Marshal(normTree(want))
+		return false, fmt.Sprintf("printed %s, library %s", clip(string(gj), 400), clip(string(wj), 400))
+	}
+	return true, ""
 }
